@@ -6,6 +6,9 @@ import FxVerif.Proofs.C15Run
 import FxVerif.Proofs.C15Step
 import FxVerif.Proofs.C15Staking
 import FxVerif.Proofs.C15Ledger
+import FxVerif.Proofs.C15Sdk
+import FxVerif.Proofs.C15Custom
+import FxVerif.Proofs.C15Counts
 /-!
 # C15 — governance deposits are conserved and proposals follow their message-type rules
 
@@ -1207,6 +1210,103 @@ theorem deposits_paid_equal_held_plus_settled (ops : List Op) (pid : Nat) :
   rw [h0] at h
   simpa using h
 
+/-! ## round 4: the SDK keeper functions regenerated, the custom parameters a tally sees, counts = votes × stakes -/
+
+/-- **`CancelProposal` of the SDK version `/repo/go.mod` selects, as written there now**: its statement list (regenerated from
+the module cache) is the expected one — look-up, proposer, open status, voting end not passed, THEN `ChargeDeposit`, the
+votes deleted if voting had started, `DeleteProposal` last — and so are those of `DeleteProposal`, `ChargeDeposit` (its loop
+body, its destination switch); the model's `step` runs them tag by tag (`cancelRun`), and that run IS the one-piece `cancel`
+every history theorem above is proved about, in every state, for every id and sender -/
+theorem sdk_cancel_statement_order :
+    sdkCancelSteps = ["sdkCtx", "getProposal", "needProposer", "checkProposer", "checkOpen", "checkNotEnded", "getParams",
+      "chargeDeposit", "deleteVotesIfStarted", "deleteProposal", "log", "return"] ∧
+    sdkDeleteProposalSteps = ["getProposal", "removeInactive", "removeActive", "removeProposal"] ∧
+    sdkChargeSteps = ["rate", "charges0", "getDeposits", "depositLoop", "payCharges", "return"] ∧
+    sdkChargeBody = ["depositor", "remaining0", "coinLoop", "refundRemaining", "removeDeposit"] ∧
+    sdkChargeCoin = ["burnAmount=trunc(amount*rate)", "remaining+=amount-burnAmount", "charges+=burnAmount"] ∧
+    (∀ (s : State) (pid : Nat) (who : Addr), cancelRun s pid who = cancel s pid who) ∧
+    (∀ (s : State) (pid : Nat) (who : Addr), (step s (.cancel pid who)).1 = (ofExcept s (cancel s pid who)).1) ∧
+    (∀ (s : State) (pid : Nat) (p : Proposal), findProp s.props pid = some p →
+      deleteProposalRun pid s = { s with inactive := removeQ (p.depositEnd, pid) s.inactive,
+                                         active := removeQ (p.votingEnd, pid) s.active, props := dropProp s.props pid }) :=
+  ⟨rfl, rfl, rfl, rfl, rfl, cancelRun_eq, fun s pid who => by simp only [step, cancelRun_eq],
+   fun _ _ _ hp => deleteProposalRun_eq hp⟩
+
+/-- **`RefundAndDeleteDeposits` and `DeleteAndBurnDeposits` of that SDK version**: the callback of the refund walk sends the
+deposit to its depositor and removes the record; the burn walk adds the amount to `coinsToBurn` and removes the record, one
+`BurnCoins` of the sum follows the walk.  Interpreted (`refundRun`, `burnRun`), they are the `refundDeposits` /
+`burnDeposits` of the model in every state — so `each_deposit_settled_once_refund` / `_burn` speak about the SDK code as
+written now -/
+theorem sdk_settlement_statements :
+    sdkRefundCallback = ["depositor", "send", "remove", "return:return false, err"] ∧
+    sdkBurnSteps = ["sum0", "walk", "burnSum"] ∧ sdkBurnCallback = ["accumulate", "remove"] ∧
+    (∀ (pid : Nat) (s : State), refundRun pid s = refundDeposits pid s) ∧
+    (∀ (pid : Nat) (s : State), burnRun pid s = burnDeposits pid s) :=
+  ⟨rfl, rfl, rfl, refundRun_eq, burnRun_eq⟩
+
+/-- **the tally of a block uses the period and quorum configured at the START of the block**, after every history, unless
+another proposal ending in the same block rewrites them: with `s` the state after any operation list and `p` a stored
+proposal whose voting end has been reached, if no OTHER stored proposal whose voting end has been reached carries a
+`MsgUpdateCustomParams`, then the moment `sm` of `voting_ends_exactly_at_period_end` has the custom parameters of `s`: the
+outcome is the specified one with the quorum configured for the message type in `s`, and a failed expedited proposal is
+converted with the regular period configured for its type in `s`.  (Without the hypothesis the tally sees the parameters as
+rewritten by the proposals executed before it in queue order — `example` below; that is the code's behaviour, and the
+property's "configured for its message type" is then read at that moment.) -/
+theorem tally_uses_block_start_custom (ops : List Op) (dt : Nat) (stk : Staking) (pid : Nat) (p : Proposal) :
+    let s := run init ops
+    let s' := (step s (.endBlock dt stk)).1
+    findProp s.props pid = some p → p.status = .voting → stakingOk stk → p.votingEnd ≤ s.time →
+    (∀ id q, id ≠ pid → findProp s.props id = some q → q.status = .voting → q.votingEnd ≤ s.time → noSetCustom q.msgs = true) →
+    ∃ (sm : State) (n : Nums) (q : Proposal), sm.params = s.params ∧ sm.time = s.time ∧ sm.custom = s.custom ∧
+      findProp sm.props pid = some p ∧ tallyNums (votesOf sm.votes pid) stk = some n ∧
+      findProp s'.props pid = some q ∧
+      (specPasses s.params (specQuorum s.params s.custom p.msgs) p.expedited n = true → q.status = .passed ∨ q.status = .failed) ∧
+      (specPasses s.params (specQuorum s.params s.custom p.msgs) p.expedited n = false → p.expedited = false → q.status = .rejected) ∧
+      (specPasses s.params (specQuorum s.params s.custom p.msgs) p.expedited n = false → p.expedited = true →
+          q.status = .voting ∧ q.expedited = false ∧ q.votingEnd = p.votingStart + specPeriod s.params s.custom p.msgs false) := by
+  intro s s' hp hv hs hle hno
+  have ha : All s := run_all rfl rfl rfl rfl ops init init_all
+  obtain ⟨s1, hb, _⟩ := endBlock_total rfl rfl rfl rfl rfl ha hs
+  have hs' : s' = (step s (.endBlock dt stk)).1 := rfl
+  simp only [step, hb] at hs'
+  have e' : s'.props = s1.props := by rw [hs']
+  obtain ⟨sm, q, n, passes, burn, hsm, hpar, htime, hcus, hpm, hn, hr, hq, hend⟩ :=
+    endBlock_voting_custom rfl rfl rfl rfl rfl ha hb hp hv hle hno
+  obtain ⟨n', hn', hj, _⟩ := tallyNums_ok (votes := votesOf sm.votes pid) (stk := stk)
+    (fun v hv' => hsm.both.v.valid v (mem_votesOf.mp hv').1) hs rfl
+  rw [hn] at hn'; cases hn'
+  have hout := tally_outcome_by_type sm p n hj
+  rw [hr, hpar, hcus] at hout
+  have hpass : passes = specPasses s.params (specQuorum s.params s.custom p.msgs) p.expedited n := by
+    cases hout; rfl
+  have hq' : findProp s'.props pid = some q := by rw [e']; exact hq
+  obtain ⟨_, _, _, _, e5⟩ := hend
+  refine ⟨sm, n, q, hpar, htime, hcus, hpm, hn, hq', fun h => ?_, fun h hx => ?_, fun h hx => ?_⟩
+  · rcases e5 with e5 | e5 | e5
+    · exact e5.2
+    · rw [hpass, h] at e5; cases e5.1
+    · rw [hpass, h] at e5; cases e5.1
+  · rcases e5 with e5 | e5 | e5
+    · rw [hpass, h] at e5; cases e5.1
+    · rw [hx] at e5; cases e5.2.1
+    · exact e5.2.2
+  · rcases e5 with e5 | e5 | e5
+    · rw [hpass, h] at e5; cases e5.1
+    · have hst : q.status = .voting := by rw [e5.2.2.1]; exact hv
+      refine ⟨hst, e5.2.2.2.1, ?_⟩
+      rw [e5.2.2.2.2, conversion_period_by_type, hpar, hcus]
+    · rw [hx] at e5; cases e5.2.1
+
+/-- **the per-option counts are votes × stakes, for all inputs**: whatever the stored votes and the staking numbers are, when
+the sums of `Tally` are defined the count of every option is the sum over the votes of (power of each delegation of the voter
+to a bonded validator) × (weight given to the option) plus the sum over the bonded validators whose operator voted of (power
+of the shares left after the deductions) × (weight), the total is the sum of exactly those powers, and the turnout is taken
+against the total bonded tokens of the block -/
+theorem tally_counts_are_stake_times_weight (votes : List Vote) (stk : Staking) (n : Nums) (h : tallyNums votes stk = some n) :
+    (∀ o : Opt, getOpt n o = voteCount o stk votes + valCount o votes stk.dels stk.vals) ∧
+    n.total = voteTotal stk votes + valTotal votes stk.dels stk.vals ∧ n.bonded = stk.totalBonded :=
+  ⟨fun o => (tallyNums_counts votes stk n h o).1, (tallyNums_counts votes stk n h .yes).2.1, (tallyNums_counts votes stk n h .yes).2.2⟩
+
 /-! ## non-vacuity -/
 
 def egf : Ty := egfUrl.toList
@@ -1313,5 +1413,55 @@ example : (viewOf (wrun winit [.genesis demoGenesis, .slash 101 9500000000000000
 example : sumAmt (depsOf (run init demoOps).paid 1) = 2000 ∧ sumSettled (settledOf (run init demoOps).settled 1) = 2000 ∧
     sumAmt (depsOf (run init demoOps).deps 1) = 0 ∧ sumAmt (depsOf (run init demoOps).deps 3) = 5000 ∧
     sumSettled (settledOf (run init demoOps).settled 3) = 0 := by decide
+
+/-! ### round 4 -/
+
+/-- non-vacuity of `tally_uses_block_start_custom`: after `demoOps.take 14` the clock is 50, proposal 1 (end 30) and
+proposal 3 (expedited, end 50) are due in the next block, and no stored proposal carries a `MsgUpdateCustomParams` -/
+example : (run init (demoOps.take 14)).time = 50 ∧
+    (findProp (run init (demoOps.take 14)).props 1).map (fun p => (p.status, p.votingEnd)) = some (.voting, 30) ∧
+    (run init (demoOps.take 14)).props.all (fun q => noSetCustom q.msgs) = true ∧ stakingOk demoStk := by
+  refine ⟨by decide, by decide, by decide, ?_⟩
+  intro v hv
+  simp [demoStk] at hv
+  rcases hv with rfl | rfl | rfl <;> simp [DEC]
+
+def toggleUrl : Ty := "/fx.erc20.v1.MsgToggleTokenConversion".toList
+/-- a `MsgUpdateCustomParams` that sets the quorum of the toggle type to 90 % -/
+def setQ : Msg := ⟨"/fx.gov.v1.MsgUpdateCustomParams".toList, true, true, .setCustom toggleUrl (some ⟨0, 20, 900000000000000000⟩), []⟩
+/-- two proposals end in the same block; the first in queue order rewrites the quorum of the second one's type -/
+def sameBlockOps : List Op :=
+  [ .mint 0 100000,
+    .submit 0 [setQ] 1000 false,
+    .submit 0 [toggle] 1000 false,
+    .vote 1 100 [(.yes, DEC)], .vote 1 101 [(.yes, DEC)], .vote 1 102 [(.yes, DEC)],
+    .vote 2 100 [(.yes, DEC)],
+    .endBlock 100 demoStk ]
+
+/-- … and the hypothesis of `tally_uses_block_start_custom` is needed: with the parameters of the block start (no custom
+entry, quorum 40 %, turnout 50 %, all yes) proposal 2 passes, but it is tallied AFTER proposal 1 has set the quorum of its
+type to 90 % in the same end-blocker walk, and is rejected -/
+example : noSetCustom [setQ] = false ∧
+    (let s := run init sameBlockOps
+     (tallyNums (votesOf s.votes 2) demoStk).map (fun n => specPasses s.params (specQuorum s.params s.custom [toggle]) false n) = some true) ∧
+    (run init (sameBlockOps ++ [.endBlock 1 demoStk])).props.map (fun p => (p.id, p.status)) = [(1, .passed), (2, .rejected)] := by
+  refine ⟨by decide, by decide, by decide⟩
+
+/-- non-vacuity of `tally_counts_are_stake_times_weight`: proposal 1 of `demoOps` — validator 100 (200 tokens, half of its
+shares held by account 0) votes yes, account 0 votes 70 % no / 30 % abstain: yes = 100 (the validator's own delegation),
+no = 70, abstain = 30, total 200, nothing is left to the validator after the deductions -/
+example : (tallyNums (votesOf (run init (demoOps.take 13)).votes 1) demoStk).map
+      (fun n => (getOpt n .yes, getOpt n .no, getOpt n .abstain, n.total)) = some (100 * DEC, 70 * DEC, 30 * DEC, 200 * DEC) ∧
+    voteCount .no demoStk (votesOf (run init (demoOps.take 13)).votes 1) = 70 * DEC ∧
+    valCount .yes (votesOf (run init (demoOps.take 13)).votes 1) demoStk.dels demoStk.vals = 0 := by
+  refine ⟨by decide, by decide, by decide⟩
+
+/-- the interpreted `CancelProposal`: the proposer of proposal 1 (deposits 1999 + 1, cancel ratio 1/2, charges burnt) gets
+1000 back, 999 + 0 are burnt, the proposal and its queue entry are gone; anyone else is refused, an unknown id too -/
+example : ((cancelRun (run init (demoOps.take 5)) 1 0).toOption.map (fun t => (t.gov, t.props.length, t.burned, t.active))) =
+      some (0, 0, 999, []) ∧
+    (step (run init (demoOps.take 5)) (.cancel 1 1)).2 = "err:proposer" ∧
+    (step (run init (demoOps.take 5)) (.cancel 9 1)).2 = "err:notfound" := by
+  refine ⟨by decide, by decide, by decide⟩
 
 end FxVerif.Props.C15
